@@ -29,8 +29,10 @@ RULE = ("four case kinds in rotation 3:1:4:2 - split: texts of 0-40 (some 200) c
         "preseek=False at a cursor; jsonl: JSON Lines files of 0-8 lines (ints, strings with multi-byte characters, "
         "corrupt, blank and white-space lines, \\n/\\r\\n endings, 15% padded to 1-3 blocks of 4096 bytes with a "
         "\\r\\n or a multi-byte character across a block edge), drained forward and in reverse, ignore_errors "
-        "on/off; thorough adds two complete small scopes (every text over {a,\\n,\\r,\\x85,U+2028} up to length 5; "
-        "every content over {a,\\n,\\r} up to length 7 with block sizes 1,2,3,5,default); non-trivial = "
+        "on/off; thorough adds three complete small scopes (every text over {a,\\n,\\r,\\x85,U+2028} up to length 5; "
+        "every content over {a,\\n,\\r} up to length 7 with block sizes 1,2,3,5,default; every 1-3 byte string over "
+        "the UTF-8 table's boundary bytes through the primitives); one case in eleven (prim) observes the CPython "
+        "primitives of the model directly (bytes.splitlines, file iteration, lstrip, utf-8 decode); non-trivial = "
         "split/indent: >=2 breaks one of which is not \\n; rev: >=2 lines and a block edge inside the content; "
         "jsonl: >=2 objects and >=1 skipped line; distinct = distinct case hash")
 ASSUMPTIONS = ["file content is UTF-8 (or arbitrary bytes in binary mode); block size >= 1",
@@ -152,7 +154,8 @@ def gen_indent(rng, tier):
 
 def sweep(tier):
     """thorough tier: complete small scopes.  split: every text over {a, \\n, \\r, \\x85, U+2028} up to length 5;
-    rev: every content over {a, \\n, \\r} up to length 7, block sizes 1, 2, 3, 5 and the default."""
+    rev: every content over {a, \\n, \\r} up to length 7, block sizes 1, 2, 3, 5 and the default;
+    prim: every 1-3 byte string over the UTF-8 table's boundary bytes."""
     import itertools
     for n in range(0, 6):
         for t in itertools.product([97, 10, 13, 0x85, 0x2028], repeat=n):
@@ -163,6 +166,17 @@ def sweep(tier):
             k += 1
             yield {"k": "rev", "runs": [[list(t), 1]], "mode": REV_MODES[k % len(REV_MODES)], "pos": None,
                    "bs": [[1, "pos"], [2, "kw"], [3, "kw"], [5, "pos"], [4096, "default"]]}
+    # the UTF-8 decoder (and the other primitives) on every 1-, 2-, 3-byte string over the boundary bytes of the
+    # codec's table (3-byte strings: non-ASCII lead), and the 4-byte boundary combinations
+    edge = [0x00, 0x0a, 0x0d, 0x20, 0x41, 0x7f, 0x80, 0x8f, 0x90, 0x9f, 0xa0, 0xbf, 0xc0, 0xc1, 0xc2, 0xdf, 0xe0, 0xe1,
+            0xec, 0xed, 0xee, 0xef, 0xf0, 0xf1, 0xf3, 0xf4, 0xf5, 0xff]
+    for n in (1, 2, 3):
+        for t in itertools.product(edge, repeat=n):
+            if n < 3 or t[0] >= 0xc0:
+                yield {"k": "prim", "runs": [[list(t), 1]]}
+    for lead in (0xf0, 0xf1, 0xf4):
+        for t in itertools.product([0x80, 0x8f, 0x90, 0xbf, 0x41], repeat=3):
+            yield {"k": "prim", "runs": [[[lead] + list(t), 1]]}
 
 
 CH_ASCII = [[97], [98], [120], [32], [49]]
@@ -327,15 +341,42 @@ def gen_jsonl(rng, tier):
     return case
 
 
+UTF8_EDGE = [[0xc0, 0x80], [0xc1, 0xbf], [0xc2, 0x80], [0xdf, 0xbf], [0xe0, 0x80, 0x80], [0xe0, 0x9f, 0xbf], [0xe0, 0xa0, 0x80],
+             [0xed, 0x9f, 0xbf], [0xed, 0xa0, 0x80], [0xed, 0xbf, 0xbf], [0xee, 0x80, 0x80], [0xef, 0xbf, 0xbf],
+             [0xf0, 0x80, 0x80, 0x80], [0xf0, 0x8f, 0xbf, 0xbf], [0xf0, 0x90, 0x80, 0x80], [0xf4, 0x8f, 0xbf, 0xbf],
+             [0xf4, 0x90, 0x80, 0x80], [0xf5, 0x80, 0x80, 0x80], [0xe2, 0x82], [0xf0, 0x9d, 0x84], [0x80], [0xbf], [0xc3],
+             [0xe2, 0x28, 0xa1], [0xf0, 0x28, 0x8c, 0xbc], [0xfe], [0xff], [0xc3, 0xa9], [0xe2, 0x80, 0xa8], [0xc2, 0x85],
+             [0xc2, 0xa0], [0xe1, 0x9a, 0x80], [0xe3, 0x80, 0x80], [0x1c], [0x1f], [0]]
+
+
+def gen_prim(rng, tier):
+    n = rng.randint(0, 24)
+    out = []
+    p_edge = rng.choice([0.0, 0.1, 0.3])
+    while len(out) < n:
+        x = rng.random()
+        if x < p_edge:
+            out += rng.choice(UTF8_EDGE)
+        elif x < p_edge + 0.3:
+            out += rng.choice([[10], [13], [13, 10], [32], [9], [11], [12]])
+        elif x < p_edge + 0.45:
+            out += rng.choice(CH_MULTI)
+        else:
+            out += rng.choice(CH_ASCII)
+    return {"k": "prim", "runs": [[out, 1]]}
+
+
 def generate(rng, tier, n):
     if TIERS.get(tier, {}).get("exhaustive") and n >= TIERS[tier]["n"]:
         for c in sweep(tier):
             yield c
     # kinds interleaved so that the first generated cases (used by the driver's canary) are of different kinds
     order = ["rev", "jsonl", "split", "indent", "rev", "split", "rev", "jsonl", "split", "rev"]
-    gens = {"rev": gen_rev, "jsonl": gen_jsonl, "split": gen_split, "indent": gen_indent}
+    gens = {"rev": gen_rev, "jsonl": gen_jsonl, "split": gen_split, "indent": gen_indent, "prim": gen_prim}
     for i in range(n):
         yield gens[order[i % 10]](rng, tier)
+        if i % 10 == 9:
+            yield gens["prim"](rng, tier)        # one in eleven: the CPython primitives themselves
 
 
 # --------------------------------------------------------------------------
@@ -399,6 +440,19 @@ def run_impl(case):
         it = iter_splitlines(text)
         lines = [l for l in it]
         return {"lines": [[ord(c) for c in l] for l in lines], "py": [[ord(c) for c in l] for l in text.splitlines()]}
+    if k == "prim":
+        import io
+        b = bytes(content)
+        res = {"bsplit": [list(l) for l in b.splitlines()], "biter": [list(l) for l in io.BytesIO(b)],
+               "blstrip": list(b.lstrip()), "dec": None, "titer": None, "tlstrip": None}
+        try:
+            t = b.decode("utf-8")
+        except UnicodeDecodeError:
+            return res
+        res["dec"] = [ord(c) for c in t]
+        res["titer"] = [[ord(c) for c in l] for l in io.TextIOWrapper(io.BytesIO(b), encoding="utf-8")]
+        res["tlstrip"] = [ord(c) for c in t.lstrip()]
+        return res
     if k == "indent":
         from boltons.strutils import indent
         text = "".join(chr(c) for c in content)
@@ -505,6 +559,12 @@ def to_coq(case, obs):
     k = case["k"]
     if k == "split":
         return "CSplit %s %s %s" % (crtext_runs(case["runs"]), clines(obs["lines"]), clines(obs["py"]))
+    if k == "prim":
+        def opt(x, f):
+            return "None" if x is None else "(Some %s)" % f(x)
+        return "CPrim %s %s %s %s %s %s %s" % (crtext_runs(case["runs"]), clines(obs["bsplit"]), clines(obs["biter"]),
+                                              crtext(obs["blstrip"]), opt(obs["dec"], crtext),
+                                              opt(obs["titer"], clines), opt(obs["tlstrip"], crtext))
     if k == "indent":
         return "CIndent %s %s %s %s" % (crtext_runs(case["runs"]), crtext(case["margin"]), crtext(case["newline"]),
                                         crtext(obs["text"]))
@@ -525,6 +585,9 @@ def corrupt(case, obs):
             bad["lines"] = [[]]
         else:
             bad["lines"][-1] = bad["lines"][-1] + [97]
+        return bad
+    if k == "prim":
+        bad["blstrip"] = bad["blstrip"] + [32]
         return bad
     if k == "indent":
         bad["text"] = bad["text"] + [32]
@@ -564,6 +627,8 @@ def _edges(case, content):
 def nontrivial(case, obs):
     k = case["k"]
     content = expand(case["runs"])
+    if k == "prim":
+        return len(content) >= 4
     if k in ("split", "indent"):
         brk = [c for c in content if c in (10, 11, 12, 13, 0x85, 0x2028, 0x2029)]
         return len(brk) >= 2 and any(c != 10 for c in brk)
@@ -581,6 +646,9 @@ def distribution(d, case, obs):
     def inc(key, by=1):
         d[key] = d.get(key, 0) + by
     inc("kind:" + k)
+    if k == "prim":
+        inc("prim_decodable" if obs["dec"] is not None else "prim_invalid_utf8")
+        return
     if k == "indent":
         return
     if k == "split":
